@@ -20,6 +20,11 @@ type Document struct {
 	checkOnce sync.ErrOnce
 
 	allowTrailingNonSpaceCharacters bool
+
+	// failed the error at which reading stopped: the scanner is left in the
+	// middle of a token, so every further call returns the same error until
+	// the document is rewound.
+	failed error
 }
 
 var _ jschema.Document = &Document{}
@@ -125,6 +130,10 @@ func (d *Document) check() error {
 }
 
 func (d *Document) nextLexeme() (lex lexeme.LexEvent, err error) {
+	if d.failed != nil {
+		return lexeme.LexEvent{}, d.failed
+	}
+
 	defer func() {
 		r := recover()
 		if r == nil {
@@ -136,6 +145,7 @@ func (d *Document) nextLexeme() (lex lexeme.LexEvent, err error) {
 			panic(r)
 		}
 		err = rErr
+		d.failed = rErr
 	}()
 
 	lex, ok := d.scanner.Next()
@@ -157,6 +167,7 @@ func (d *Document) Rewind() {
 
 // rewind rewinds document to the beginning.
 func (d *Document) rewind() {
+	d.failed = nil
 	d.scanner = newScanner(d.file)
 	d.scanner.allowTrailingNonSpaceCharacters = d.allowTrailingNonSpaceCharacters
 }
